@@ -25,6 +25,9 @@ def stub_assoc(accepted):
     log = []
     a = Association.__new__(Association)
     a._accepted_cx = {c.context_id: c for c in accepted}
+    rej = cx(3, CT)
+    rej.result = 3
+    a._rejected_cx = [rej]
     a.dimse = types.SimpleNamespace(send_msg=lambda rsp, cid: log.append(("send_msg", cid, getattr(rsp, "Status", None))), cancel_req={})
     a._handlers = {}
 
